@@ -6,6 +6,7 @@
    the ASan+UBSan run of the same streams (supporting, see evidence). *)
 From Via Require Import M_Char M_Parse M_Receive P_Parse P_C05 P_Term P_TermC.
 From Via Require Import M_Imp M_Loop M_Hdr M_Msg M_Chunk Gen_Parse P_Imp P_Loop P_Hdr P_Msg P_Frag P_C06b P_Chunk.
+From Via Require Import M_Query M_Recv P_Recv.
 Local Open Scope N_scope.
 
 (* one call, from any state satisfying the invariant *)
@@ -95,3 +96,20 @@ Example C05_chunk_source_premises : let L := mk_limits 8190 8 100 65534 1024 8 6
   rc_inv L (rc_init 1048576) /\ hd_ok (rc_trailers (rc_init 1048576)) /\ small (ck_max (rc_hdr (rc_init 1048576))).
 Proof. split; [apply rc_inv_init | split; [apply fl_ok_init | reflexivity]]. Qed.
 Print Assumptions C05_chunk_source_is_defined.
+
+(* request_receiver::receive, translated: run on any receiver the connection can reach and any input it returns a value -
+   no `iter + required` outside [iter, end], no ptrdiff_t subtraction out of range, no read at `end`, in the function or
+   in anything it calls (each would be `None`) *)
+Theorem C05_receive_source_is_defined : forall cfg v buf fuel,
+  body_inv v ->
+  hd_ok (rq_headers (rv_req v)) -> rc_inv (c_lim cfg) (rv_chunk v) -> hd_ok (rc_trailers (rv_chunk v)) ->
+  small (ck_max (rc_hdr (rv_chunk v))) -> small (c_max_content cfg) -> small (nlen (rv_body v)) ->
+  (length buf + 2 <= fuel)%nat ->
+  rrun (rl_lim (c_lim cfg)) (fl_lim (c_lim cfg)) (hd_lim (c_lim cfg)) (ck_lim (c_lim cfg)) (rcode_of (c_lim cfg))
+       (c_max_content cfg) (c_translate_head cfg) (c_concat cfg) rv_clear_src fuel rv_receive_src (rv_store v) buf <> None.
+Proof.
+  intros cfg v buf fuel Hbi H1 H2 H3 H4 H5 H6 Hf. rewrite (receive_is_the_source cfg v buf fuel Hbi H1 H2 H3 H4 H5 H6 Hf).
+  pose proof (receive_safe cfg v buf Hbi) as [_ Hub].
+  destruct (receive cfg v buf) as [[v' rest] r]. cbn [snd] in Hub. destruct r; cbn [rx_of]; try discriminate. exfalso; apply Hub; reflexivity.
+Qed.
+Print Assumptions C05_receive_source_is_defined.
